@@ -1,5 +1,5 @@
 """C13 — encoded text is inert, strictly parseable LaTeX, ASCII-only when asked."""
-import itertools, random, unicodedata, collections
+import re, itertools, random, unicodedata, collections
 from common import w_str, w_bool, show_str, show_bool, show_opt
 
 PID = 'C13'
@@ -80,17 +80,19 @@ def gen_cases(seed, tier):
                                                        for a in (m.arguments_spec_list or [])))
     for xml, T in ((False, D), (True, X)):
         for c, r in sorted(T.items()):
-            if not (r.startswith('\\') and r[1:].isalpha() and len(r) <= 4):
+            m = re.search(r'\\([A-Za-z]+)$', r)            # the replacement ENDS with a control word (maybe after other macros)
+            if not m or len(m.group(1)) > 4:
                 continue
+            w = m.group(1)
             ch = chr(c)
             if unicodedata.normalize('NFC', ch) != ch:
                 continue
             for name in need_arg:
-                if name.startswith(r[1:]) and len(name) > len(r) - 1:
+                if name.startswith(w) and len(name) > len(w):
                     for p in PROTS:
                         if p == 'none':
                             continue        # documented: no protection, the control word fuses with what follows
-                        cases.append(_case('see ' + ch + name[len(r) - 1:], xml, p, rnd.choice(POLS), 'fusion'))
+                        cases.append(_case('see ' + ch + name[len(w):], xml, p, rnd.choice(POLS), 'fusion'))
     pool = ([chr(c) for c in sorted(D)] + list(ACTIVE) + list('ab 1.\n\t') +
             ['\x00', '\x07', '\x7f', '\x85', '́', '̋', '​', '\U0001F600', '\U000E0001', '͸', '퟿',
              '�', '\U0010FFFF', '中', 'é', 'ß'])
